@@ -113,6 +113,7 @@ class Report:
         if refuted:
             code = 1
             replay = os.path.join(EVDIR, "%s.violations.json" % self.prop)
+            os.makedirs(EVDIR, exist_ok=True)
             with open(replay, "w") as f:
                 json.dump([dict(o.as_dict(), key=o.key) for o in refuted], f, indent=1)
             for o in refuted:
